@@ -28,6 +28,7 @@ type Prog struct {
 	ordCache  map[*ssa.Function]map[ssa.Instruction]int
 	allFuncs  []*ssa.Function
 	astPkgs   []*packages.Package
+	staleContracts map[string]bool
 }
 
 type Obl struct {
@@ -115,6 +116,7 @@ type Exec struct {
 	aborted   bool
 	nbound    int
 	ntrivial  int
+	nAssumedFalse int
 	ncalls    int
 	errDyn    map[string]types.Type
 	freshRegs map[*Region]bool
@@ -126,6 +128,7 @@ type Exec struct {
 	objTags     map[*Object]string
 	litOfRegion map[*Region]string
 	contractErrs []string
+	stale        map[string]bool
 	skippedEnsures map[string]bool
 	maxPaths  int
 	callDepth int
@@ -142,7 +145,7 @@ func NewExec(p *Prog, fn *ssa.Function, c *Contract) *Exec {
 		ordinals: map[string]int{}, instrOrd: map[instrKind]string{},
 		inlined: map[string]bool{}, byContr: map[string]bool{}, intrUsed: map[string]bool{}, unspec: map[string]bool{},
 		specFns: map[string]bool{}, maxPaths: 4000,
-		errDyn: map[string]types.Type{}, freshRegs: map[*Region]bool{}, regionAlias: map[*Region]*Region{}, skippedEnsures: map[string]bool{}, strTags: map[string]string{}, strElems: map[string]VStr{}, objTags: map[*Object]string{}, litOfRegion: map[*Region]string{}, anyElems: map[string]Value{}, zeroObjs: map[*Object]Value{},
+		errDyn: map[string]types.Type{}, freshRegs: map[*Region]bool{}, regionAlias: map[*Region]*Region{}, skippedEnsures: map[string]bool{}, stale: map[string]bool{}, strTags: map[string]string{}, strElems: map[string]VStr{}, objTags: map[*Object]string{}, litOfRegion: map[*Region]string{}, anyElems: map[string]Value{}, zeroObjs: map[*Object]Value{},
 		allRegs: map[string]*Region{}, boundedLoops: map[string]bool{}, noInvLoops: map[string]bool{},
 	}
 	return e
@@ -494,6 +497,12 @@ func (e *Exec) explore(init *State) []*State {
 // step executes one instruction of the top frame. It returns forked states
 // (to be explored separately) and whether this state's path has ended.
 func (e *Exec) step(st *State) (forks []*State, end bool) {
+	if st.Dead {
+		if st.AssumedFalse && !st.Dry {
+			e.nAssumedFalse++
+		}
+		return nil, true
+	}
 	fr := st.top()
 	instr := fr.Block.Instrs[fr.PC]
 	switch in := instr.(type) {
